@@ -30,7 +30,7 @@ INV = ["C01_Descending", "C01_VarianceIdentity", "C15_ThresholdMinimal", "C15_Au
 def cfg(tier):
     q = tier != "thorough"
     return ["SPECIFICATION Spec", "CONSTANTS",
-            f" Ns <- {'NsQ' if q else 'NsT'}", f" Spectra <- {'SpectraQ' if q else 'SpectraT'}",
+            f" Ns <- {'NsTall' if q else 'NsT'}", f" Spectra <- {'SpectraQ' if q else 'SpectraT'}",
             " WPatterns <- WQ", " LPatterns <- LQ" if not q else " LPatterns <- LQ",
             f" Fracs <- {'FracsQ' if q else 'FracsT'}", " Irrs <- IrrAll", " Kinds <- KBoth", " Rels <- RelNone",
             " Dtypes <- DBoth", " Solvers <- SAll", " Cexps <- CZero", " FullProduct = FALSE",
@@ -47,7 +47,7 @@ def evaluate(i, scn):
     sw = W.SingleWorld(c, seed=common.seed(), wide=c["wide"])
     X = sw.data()
     cls = xe.single.ComplexEOF if c["dtype"] == "complex" else xe.single.EOF
-    isfrac = c["frac"][1] != 0
+    isfrac = c["frac"][1] != 0 or bool(c.get("hair"))
     kw = dict(init_rank_reduction=c["irr"][0] / c["irr"][1]) if False else {}
     count = {"frac" if isfrac else "int": 1}
     # ---- route 1: Decomposer through the model class
